@@ -33,7 +33,8 @@ compile and the proof obligation breaks):
                method (x.is_char_boundary(n)), !c, c || c, c && c
   scrutinee s  e | e? | self.f.take()
   patterns     _  [mut] x  0  None  Some(p)  Path::Ctor(p, ..)  Path::Ctor  (p, q)  p | q (no bindings)
-  expressions  integer literals, (), variables, x.f, self.f, e as T (casts are dropped: see below),
+  expressions  integer and string literals (a string is its UTF-8 bytes; string literals are patterns too, and
+               `==` / `!=` on such operands is structural equality), (), variables, x.f, self.f, e as T (casts are dropped: see below),
                &e, &mut e, *e, x[..n], x[n..], (a, b), Path { f: e, g } (a struct value), f: [move] |x| { .. }
                in a struct literal (a closure value: only its captures are kept), Ctor(args), Path::Ctor(args), Path {}, Vec::new(),
                Vec::with_capacity(e), std::cmp::min(a, b), XSnafu.fail(), e.len(), a.cmp(&b), e.clone(),
@@ -397,7 +398,7 @@ class Parser:
             self.eat()
             neg = True
         a = self.postfix()
-        if self.peek() in (">", "<", ">=", "<=", "=="):
+        if self.peek() in (">", "<", ">=", "<=", "==", "!="):
             op = self.eat()
             b = self.postfix()
             c = ("cmp", op, a, b)
@@ -472,6 +473,8 @@ class Parser:
             return ("wild",)
         if re.match(r"\d", self.peek()):
             return ("num", int(self.eat().replace("_", "")))
+        if self.peek().startswith('"'):
+            return ("strpat", self.eat()[1:-1])
         if self.peek() == "(":
             self.eat()
             ps = []
@@ -622,6 +625,9 @@ class Parser:
         if re.match(r"\d", tok):
             self.eat()
             return ("num", int(tok.replace("_", "")))
+        if tok.startswith('"'):
+            self.eat()
+            return ("str", tok[1:-1])
         if tok in ("true", "false"):
             self.eat()
             return ("ctor", tok, [])
@@ -696,6 +702,10 @@ class Gen:
         k = x[0]
         if k == "num":
             return "(VN %d)" % x[1]
+        if k == "str":
+            if "\\" in x[1]:
+                raise Fail("escape in a string literal")
+            return "(VBytes [%s])" % "; ".join(str(b) for b in x[1].encode("utf-8"))
         if k == "var":
             if x[1] in env:
                 return env[x[1]]
@@ -705,7 +715,9 @@ class Gen:
         if k == "cast16":
             return "(v_u16 %s)" % self.e(x[1], env)
         if k == "struct":
-            return "(VR [%s])" % "; ".join("(%s, %s)" % (cstr(f), self.e(v, env)) for f, v in x[2])
+            rec = "(VR [%s])" % "; ".join("(%s, %s)" % (cstr(f), self.e(v, env)) for f, v in x[2])
+            # a struct-like enum variant keeps its name
+            return "(VC %s [%s])" % (cstr(x[1]), rec) if "::" in x[1] else rec
         if k == "closureval":
             return "(VC \"closure\" [%s])" % "; ".join(env[n] for n in x[1] if n in env)
         if k == "add":
@@ -775,6 +787,8 @@ class Gen:
                 return self.e(recv, env)
             if m == "len" and not args:
                 return "(v_len %s)" % self.e(recv, env)
+            if m == "unwrap_or" and len(args) == 1:
+                return "(v_unwrap_or %s %s)" % (self.e(recv, env), self.e(args[0], env))
             if m == "cmp" and len(args) == 1:
                 return "(v_cmp %s %s)" % (self.e(recv, env), self.e(args[0], env))
             if m in self.calls:
@@ -791,6 +805,9 @@ class Gen:
             return "(%s || %s)" % (self.cond(c[1], env), self.cond(c[2], env))
         if c[0] == "and":
             return "(%s && %s)" % (self.cond(c[1], env), self.cond(c[2], env))
+        if c[0] == "cmp" and c[1] in ("==", "!=") and (self.nonnum(c[2]) or self.nonnum(c[3])):
+            r = "(v_beq %s %s)" % (self.e(c[2], env), self.e(c[3], env))
+            return r if c[1] == "==" else "(negb %s)" % r
         if c[0] == "cmp":
             op, a, b = c[1], self.e(c[2], env), self.e(c[3], env)
             return {"==": "(v_eqb %s %s)" % (a, b), "<": "(v_ltb %s %s)" % (a, b), ">": "(v_ltb %s %s)" % (b, a),
@@ -801,6 +818,9 @@ class Gen:
         if x[0] in ("field", "var", "method"):
             return "(v_is_true %s)" % self.e(x, env)
         raise Fail("condition %r" % (c,))
+
+    def nonnum(self, x):
+        return x[0] == "str" or (x[0] in ("ctor", "call") and any(self.nonnum(a) or a[0] == "str" for a in x[2])) or (x[0] == "ctor" and not x[2] and not x[1].isupper())
 
     def assigned(self, b):
         """local variables a block rebinds (x = e; x.append(..))"""
@@ -906,7 +926,7 @@ class Gen:
             recv, m, args = x[1], x[2], x[3]
             if m == "map_err" and len(args) == 1 and args[0][0] == "closure":
                 _, cpat, cbody = args[0]
-                if cpat[0] != "wild":
+                if cpat[0] != "wild" and cpat != ("ctor", "()", []):
                     raise Fail("map_err closure that uses its argument")
                 def after(env2, v):
                     r, okv, res = self.fresh("res"), self.fresh("okval"), self.fresh("mapped")
@@ -1189,6 +1209,9 @@ class Gen:
             return succ(env)
         if p[0] == "num":
             return "(if v_eqb %s (VN %d) then %s else %s)" % (v, p[1], succ(env), fail)
+        if p[0] == "strpat":
+            lit = "(VBytes [%s])" % "; ".join(str(b) for b in p[1].encode("utf-8"))
+            return "(if v_beq %s %s then %s else %s)" % (v, lit, succ(env), fail)
         if p[0] == "or" and any(self.binds(a) for a in p[1]):
             # alternatives that bind: the body is generated for each of them
             inner = fail
@@ -1292,7 +1315,10 @@ if __name__ == "__main__":
     cells = spec.get("cells", [])
     mutcalls = set()
     fuelcalls = set()
-    out = [HEADER % ", ".join(sorted(set(p for p, _ in fns)))]
+    header = HEADER % ", ".join(sorted(set(p for p, _ in fns)))
+    if spec.get("extra_import"):
+        header = header.replace("From Amq Require Import Lib.Base Lib.RsVal.", "From Amq Require Import Lib.Base Lib.RsVal %s." % spec["extra_import"])
+    out = [header]
     ok = True
     done = set()
     for path, n in fns:
